@@ -622,6 +622,16 @@ class HierOps:
                 return obj.relabel(lambda t: t[::-1] if False else tuple(t))
             raise KeyError(how)
         st, r = call(mk)
+        if how == 'rehierarch' and self.want('C05.views') and n and not e.extra.get('failed'):
+            # the same tuples with their components permuted (row order may change), whatever the level types
+            order = op.get('order', list(range(m.depth)))
+            if sorted(order) == list(range(m.depth)):
+                want = sorted(repr(tuple(norm_t(t)[d] for d in order)) for t in m.raw)
+                if st == 'raise':
+                    raise Violation('C05.views', f'{m.cls}.rehierarch', 'raised', f'rehierarch({order}) raised {type(r).__name__}: {r}')
+                st_g, got = call(lambda: sorted(repr(norm_t(t)) for t in r))
+                if st_g == 'raise' or got != want:
+                    raise Violation('C05.views', f'{m.cls}.rehierarch', 'labels', f'rehierarch({order}) holds {got!r:.300}, expected the permuted tuples {want!r:.300}')
         if st == 'raise':
             self.stats['derive_raise:' + how] += 1
             return 'raise:' + type(r).__name__
